@@ -233,8 +233,15 @@ def run(ctx):
             nrep += 1
         for pname, p in pols:
             judge(part, pname, p, CL, WT, kind, cl, required, got, data, wt, retry_num, err)
-    for kind, cl, required, got, data, wt, retry_num, err in allc[:3]:
-        part.sample({'case': [kind, cl, required, got, data, wt, retry_num, err]})
+    names = dict((getattr(CL, n), n) for n in CLS)
+    for c in [c for c in allc if c[0] != 'request_error' and reportable(c[0], c[1], c[2], c[3], c[5]) and c[6] == 0 and c[3] >= 1][:40:10]:
+        kind, cl, required, got, data, wt, retry_num, err = c
+        dec = {}
+        for pname, p in pols:
+            r = call(p, kind, CL, WT, cl, required, got, data, wt, retry_num, None)
+            dec[pname] = '%s/%s' % (DEC.get(r[0]), names.get(r[1]))
+        part.sample({'case': {'kind': kind, 'cl': cl, 'required': required, 'got': got, 'data': data, 'write_type': wt, 'retry_num': retry_num},
+                     'decisions': dec}, limit=4)
     ctx.merge(part)
     ctx.cov['policies'] = [n for n, _ in pols]
     ctx.cov['tuples'] = len(allc)
